@@ -11,7 +11,7 @@ CLAIM = {
             'per push and hands pop\'s pointer to release().',
     'note': 'Trusted: clang CFG, extractor, the atomic primitives and memory barriers of the bundled FastFlow headers. Undecided: all '
             'interleaving claims (loss, duplication, order): only the per-thread program order that the protocol relies on is decided.',
-    'technique': 'order (dominance) + linear forms of the published sequence values',
+    'technique': 'order (dominance) + linear forms of the published sequence values; constructor-argument binding; forward two-state dataflow; must-pass-through',
 }
 UNITS = ['runtime/logger.cpp']
 EXPLANATION = (
